@@ -470,16 +470,41 @@ def wide_text(r, form=None, n=None):
     return text, f"output: p/{pa}.\ninput: q/{qa}.\n".encode(), form, n
 
 
+# ---- names that meet the names anthem itself creates: a symbolic constant / propositional atom / predicate x together
+# with x__s (renamed constant), x_p / x_1 (renamed private predicate), hx / tx (here-and-there copies), x__i ..., used
+# as propositional facts AND as terms (seeded/C16_r5: the renaming of a constant that clashes with an atom looped when the
+# renamed name was an atom too: `a. a__s. p(a).`)
+CLASH_AFFIXES = [("", ""), ("", "__s"), ("", "_p"), ("", "_1"), ("h", ""), ("t", ""), ("h", "__s"), ("", "__i"), ("", "__g"), ("", "__s__s")]
+
+
+def clash_mutant(r, text, toks):
+    names = sorted({t for t in toks if re.fullmatch(r"[a-z][A-Za-z0-9_]*", t) and t not in ("not", "and", "or", "forall", "exists", "input", "output")})
+    x = r.choice(names) if names and r.random() < 0.7 else r.choice(["a", "p", "q", "c"])
+    pred = r.choice([n for n in names if n != x] or ["p"])
+    facts = []
+    for pre, suf in CLASH_AFFIXES:
+        v = pre + x + suf
+        if r.random() < 0.7:
+            facts.append(f"{v}.")
+        if r.random() < 0.6:
+            facts.append(f"{pred}({v})." if r.random() < 0.7 else f"{pred}({v}) :- {v}.")
+    r.shuffle(facts)
+    base = text if r.random() < 0.5 else ""
+    return base.rstrip() + ("\n" if base else "") + "\n".join(facts) + "\n"
+
+
 def mutate(r, text):
     """one mutated variant of a text (str) -> bytes"""
     toks = TOK.findall(text)
-    kind = r.choices(["delete", "dup", "swap", "inflate", "inflate_in", "bigvar", "soup", "paren", "nest", "arity", "special", "bytes", "splice", "repeat"],
-                     [10, 10, 10, 10, 16, 6, 8, 8, 8, 4, 5, 4, 3, 14])[0]
+    kind = r.choices(["delete", "dup", "swap", "inflate", "inflate_in", "bigvar", "soup", "paren", "nest", "arity", "special", "bytes", "splice", "repeat", "clash"],
+                     [10, 10, 10, 10, 16, 6, 8, 8, 8, 4, 5, 4, 3, 14, 4])[0]
     idx = [i for i, t in enumerate(toks) if not t.isspace()]
     if kind in ("delete", "dup", "swap", "soup", "paren", "repeat") and not idx:
         kind = "special"
     if kind == "repeat":
         return repeat_mutant(r, toks, idx).encode()[:4096]
+    if kind == "clash":
+        return clash_mutant(r, text, toks).encode()[:4096]
     if kind == "delete":
         for _ in range(r.choice([1, 1, 2, 3])):
             if idx:
